@@ -501,6 +501,8 @@ type simWorld struct {
 	onTrafficCheck func(n *simNode, localIndex uint32, now time.Time, run func())
 	// attacker tap: sees every datagram put on the wire (after onWire)
 	tap func(d *simDatagram)
+	// observe, when set, makes every delivery an observed one (state digest before/after)
+	observe func(ob *observed, d *simDatagram)
 }
 
 func newSimWorld(rc *sk.RunCtx) *simWorld {
@@ -736,6 +738,14 @@ func (w *simWorld) deliver(d *simDatagram) {
 	if w.now < to.stallEnd {
 		// a stalled node's socket buffer holds the datagram until it runs again
 		w.at(to.stallEnd, "deliver-after-stall", func() { w.deliver(d) })
+		return
+	}
+	if w.observe != nil {
+		// observed delivery: digest the receiver before and after
+		if ob := w.deliverObserved(d); ob != nil {
+			w.rc.Count("ev.deliver", 1)
+			w.observe(ob, d)
+		}
 		return
 	}
 	if w.beforeDeliver != nil {
